@@ -593,9 +593,13 @@ class Facts:
 
     def _v(self, fn):
         """the view handed to rules by the lookup functions: private same-type / same-module helpers inlined"""
+        if fn is not None:
+            self.__dict__.setdefault('touched', set()).add(fn.path)
         if fn is None or not self.auto_inline or fn.crate != 'renoir' or getattr(fn, 'original', None) is not None:
             return fn
-        return self.inl(fn, mode='self')
+        v = self.inl(fn, mode='self')
+        self.touched.update(getattr(v, 'inlined_from', ()))
+        return v
 
     def inl(self, fn, mode='all'):
         """the view of `fn` with private same-type / same-module helpers inlined (see inline.py); cached"""
